@@ -189,7 +189,7 @@ fn minimise<P: Property>(p: &P, case: P::Case, msg: String) -> (P::Case, String)
                 break 'outer;
             }
             let r = std::panic::catch_unwind(std::panic::AssertUnwindSafe(|| {
-                p.check(&cand, &mut scratch)
+                safe_check(p, &cand, &mut scratch)
             }));
             if let Ok(Err(m)) = r {
                 best = cand;
@@ -225,7 +225,7 @@ fn run_shard<P: Property>(
         if !st.frozen {
             st.cases += 1;
         }
-        match p.check(&case, &mut st) {
+        match safe_check(p, &case, &mut st) {
             Ok(()) => Ok(()),
             Err(m) => {
                 st.frozen = true; // stop counting: the closure re-runs during shrinking
@@ -241,7 +241,7 @@ fn run_shard<P: Property>(
             let case = p.decode(&mut t);
             let mut scratch = Stats::default();
             scratch.frozen = true;
-            let msg = match p.check(&case, &mut scratch) {
+            let msg = match safe_check(p, &case, &mut scratch) {
                 Err(m) => m,
                 Ok(()) => format!("(not reproducible on re-run) {}", reason),
             };
@@ -275,7 +275,7 @@ pub fn run_property<P: Property>(p: &P, tier: Tier, seed: u64) -> RunOutcome {
             match load_case::<P>(&f) {
                 Ok(case) => {
                     stats.count("replayed_regression_inputs");
-                    if let Err(m) = p.check(&case, &mut stats) {
+                    if let Err(m) = safe_check(p, &case, &mut stats) {
                         violations.push((
                             serde_json::to_value(&case).unwrap(),
                             format!("regression input {}: {}", f.display(), m),
@@ -290,7 +290,7 @@ pub fn run_property<P: Property>(p: &P, tier: Tier, seed: u64) -> RunOutcome {
     for case in p.directed() {
         stats.count("directed_cases");
         stats.cases += 1;
-        if let Err(m) = p.check(&case, &mut stats) {
+        if let Err(m) = safe_check(p, &case, &mut stats) {
             let (case, m) = minimise(p, case, m);
             violations.push((serde_json::to_value(&case).unwrap(), m));
         }
@@ -337,7 +337,7 @@ pub fn replay_file<P: Property>(p: &P, f: &Path) -> i32 {
     match load_case::<P>(f) {
         Ok(case) => {
             let mut st = Stats::default();
-            match p.check(&case, &mut st) {
+            match safe_check(p, &case, &mut st) {
                 Ok(()) => {
                     for (k, (_, ex)) in &st.known {
                         println!("KNOWN-FINDING: property={} {} [{}]", p.id(), k, ex.replace('\n', "\\n"));
@@ -492,6 +492,26 @@ pub fn install_quiet_panic_hook() {
         }
         LAST_PANIC.with(|p| *p.borrow_mut() = Some(format!("{} @ {}", msg, loc)));
     }));
+}
+
+/// `Property::check` with a safety net: a panic that escapes the check's own guards and was raised
+/// in the library under test (or a dependency) is counted and the case is not judged — totality is
+/// C05's property —, instead of taking the whole run down.  A panic raised in the harness's own
+/// source (`src/...`) is a harness bug and is re-raised.
+pub fn safe_check<P: Property>(p: &P, case: &P::Case, st: &mut Stats) -> CheckResult {
+    match guard(|| p.check(case, st)) {
+        Ok(r) => r,
+        Err(msg) => {
+            let loc = msg.rsplit(" @ ").next().unwrap_or("");
+            if loc.starts_with("src/") {
+                eprintln!("harness panic: {}", msg);
+                panic!("{}", msg);
+            }
+            st.panicked += 1;
+            st.count("wax_panic_outside_the_checks_guards");
+            Ok(())
+        },
+    }
 }
 
 /// Run `f`, turning a panic into `Err(message @ location)`.
